@@ -37,6 +37,7 @@ func (u *writeUnit) start(r wuReq) error {
 	}
 	if execution.Execution.RegisterChange {
 		u.ctx.TransactionRATWrite(execution.Execution, execution.SequenceID)
+		u.ctx.VerifEvent(risc.VerifKindRegWB, execution.SequenceID, int32(execution.Execution.Register), execution.Execution.RegisterValue)
 		u.ctx.DeletePendingRegisters(execution.ReadRegisters, execution.WriteRegisters)
 	} else if execution.Execution.MemoryChange {
 		panic("From MVP 6.4, memory changes are written via L1 cache eviction solely")
